@@ -18,7 +18,7 @@ LEVEL = "exploration"
 RULE = (
     "one case per (history, prefix, probe): histories of 1-12 assemblies in one process (valid programs, programs failing in the scanner, "
     "parser, expansion, label pass and emission, .map programs, other ROM types, programs re-using the probes' macro/symbol/label/table/"
-    "file names with other contents, file-API and in-process CLI runs) followed after every prefix by 18 probes (LoROM, HiROM, low2, .map, "
+    "file names with other contents, file-API and in-process CLI runs) followed after every prefix by 21 probes (LoROM, HiROM, low2, .map, "
     "macros, tables, .incbin, -D, failing probes); each probe result (blocks, labels, root symbols, error kind and text with object "
     "addresses normalised) is compared with the same probe assembled alone in a fresh interpreter, and probes are repeated; distinct by "
     "hash of (history prefix, probe); non-trivial = every comparison against a fresh-process baseline"
@@ -40,6 +40,7 @@ TABLE_A = "41=A\n42=B\n43=C\n20= \n"
 TABLE_B = "0141=A\n02=B\n0400=ABC\n43=C\n99=Z\n"
 MAP_LO = ".map identifier=1 bank_range=0x00, 0x6f addr_range=0x8000, 0xffff mask=0x8000 mirror_bank_range=0x80, 0xcf\n.map identifier=2 bank_range=0x7e, 0x7f addr_range=0x0000, 0xffff mask=0x10000 writable=1\n"
 MAP_ODD = ".map identifier=1 bank_range=0x80, 0x8f addr_range=0x0000, 0xffff mask=0x10000\n.map identifier=2 bank_range=0x00, 0x0f addr_range=0x8000, 0xffff mask=0x8000 mirror_bank_range=0xc0, 0xcf\n"
+IPS_SHARED = b"PATCH" + b"\x00\x10\x00\x00\x03abc" + b"\x01\x00\x00\x00\x00\x00\x05\x7f" + b"EOF"
 COMMON = "shared_k := {k}\n.macro shared_m(pa) {{\n.db pa, {mk}\nshared_l:\n.dw shared_l\n}}\n"
 
 
@@ -55,6 +56,9 @@ def fixed_probes() -> list[dict]:
         {"name": "incbin", "src": "*=0x02FFF0\n.incbin 'blob.bin'\nafter_blob:\n.dl after_blob, blob_bin, blob_bin__size\n", "rom": None, "files": {"blob.bin": bytes(range(40))}},
         {"name": "incbin_other_content", "src": "*=0x02FFF0\n.incbin 'blob.bin'\nafter_blob:\n.dl after_blob, blob_bin, blob_bin__size\n", "rom": None, "files": {"blob.bin": bytes(range(200, 193, -1))}},
         {"name": "table_other_content", "src": "*=0x018000\n.table 'shared.tbl'\n.text 'ABC CAB'\nafter_text:\n.dl after_text\n", "rom": None, "files": {"shared.tbl": TABLE_B}},
+        {"name": "include", "src": "*=0x008000\n.db 1\n.include 'shared_inc.s'\n.db 2\n", "rom": None, "files": {"shared_inc.s": "inc_l:\nlda.w #0x1234\n.dl inc_l\n"}},
+        {"name": "include_ips", "src": "*=0x008000\n.db 1\n.include_ips 'shared.ips', 0x200\n.db 2\n", "rom": None, "files": {"shared.ips": IPS_SHARED}},
+        {"name": "include_ips_twice", "src": "*=0x008000\n.include_ips 'shared.ips', 0x1000\n.include_ips 'shared.ips', 0 - 0x200\n.db 3\n", "rom": None, "files": {"shared.ips": IPS_SHARED}},
         {"name": "reloc", "src": "*=0x008000\n@=0x7e0000\nram_code:\nlda.l ram_code\n*=0x018000\n.dl ram_code\n", "rom": None},
         {"name": "fail_scan", "src": "*=0x008000\nlda.q 1\n", "rom": None},
         {"name": "fail_symbol", "src": "*=0x008000\nlda.w shared_k\n", "rom": None},
@@ -129,6 +133,12 @@ def history_action(rng: random.Random) -> dict:
     if c < 0.5:
         return {"what": "incbin", "src": f"*={addr:#x}\n.incbin 'blob.bin'\n" + rng.choice(["", "lda.w nowhere_q\n"]), "rom": None,
                 "files": {"blob.bin": rng.randbytes(rng.choice([0, 3, 40, 100]))}}
+    if c < 0.53:
+        inc = rng.choice(["inc_l:\nlda.q 1\n", "inc_l:\n.db 'oops\n", ".include 'nofile_q.s'\n", "inc_l:\n{\n", "inc_l:\n.db 9\n"])
+        return {"what": "include", "src": f"*={addr:#x}\n.include 'shared_inc.s'\n.db 5\n", "rom": None, "files": {"shared_inc.s": inc}}
+    if c < 0.56:
+        return {"what": "include_ips", "src": f"*={addr:#x}\n.include_ips 'shared.ips', {rng.choice(['0x200', '0x1000', '0 - 0x100', '0'])}\n" + rng.choice(["", "lda.w nowhere_q\n"]),
+                "rom": None, "files": {"shared.ips": IPS_SHARED}}
     if c < 0.62:
         bad = rng.choice(["lda.q 1\n", "!!!\n", ".ascii 'abc\n", "{\n", "/* open\n", "lda.w nowhere_q\n", ".dw nowhere_q\n", "nomac_q(1)\n", "nop #1\n",
                           "bra far_q\n.ascii '" + "x" * 200 + "'\nfar_q:\n", "*=0x708000\n.db 1\n", ".include 'nofile_q.s'\n", ".text 'no table'\n", "shared_m()\n"])
